@@ -132,9 +132,14 @@ def run_fix(ctx, tcols, acols, rcols, var_choice):
         descriptives.biweight_midvariance = real
 
 
-def h_arith(ctx, n_anti, shift=False, flat=False, case=None):
+def h_arith(ctx, n_anti, shift=False, flat=False, case=None, bad_bin=False):
     bins = TGT + ANTI[:n_anti]
     rcols = ref_table(ctx, bins, with_gc=False, ok_only=True, flat=flat)
+    bad = None
+    if bad_bin:
+        # one more target bin, in the middle of the table, whose reference bin fails the spread
+        # filter: it is dropped, and the surviving rows keep non-contiguous row labels
+        bad = ("chr1", 700, 900, "A")
     nt = len(TGT)
     sl = [ctx.real(f"sl{i}", -3, 3) for i in range(len(bins))]
     apply_case(ctx, case)
@@ -143,8 +148,15 @@ def h_arith(ctx, n_anti, shift=False, flat=False, case=None):
     def cols_of(bs, logs):
         return {"chromosome": [b[0] for b in bs], "start": [b[1] for b in bs], "end": [b[2] for b in bs], "gene": [b[3] for b in bs], "log2": list(logs), "depth": [10.0] * len(bs)}
 
+    tcols = cols_of(TGT, sl[:nt])
+    rc = rcols
+    if bad is not None:
+        tcols = cols_of(TGT[:2] + [bad] + TGT[2:], sl[:2] + [0.5] + sl[2:nt])
+        rc = {k: list(v) for k, v in rcols.items()}
+        for k, v in (("chromosome", bad[0]), ("start", bad[1]), ("end", bad[2]), ("gene", bad[3]), ("log2", 0.5), ("spread", 2.0), ("depth", 10.0)):
+            rc[k].insert(2, v)
     try:
-        out = run_fix(ctx, cols_of(TGT, sl[:nt]), cols_of(ANTI[:n_anti], sl[nt:]), rcols, var)
+        out = run_fix(ctx, tcols, cols_of(ANTI[:n_anti], sl[nt:]), rc, var)
     except Exception as exc:
         ctx.claim(False, f"do_fix raised {type(exc).__name__}", info=str(exc)[:200])
         return
@@ -264,7 +276,7 @@ HARNESSES = [
     Harness(
         "arithmetic",
         h_arith,
-        [{"n_anti": 0}, {"n_anti": 1}, {"n_anti": 1, "flat": True}, {"n_anti": 0, "shift": True}, {"n_anti": 1, "shift": True, "tier": "thorough"}, {"n_anti": 1, "flat": True, "shift": True, "tier": "thorough"}]
+        [{"n_anti": 0}, {"n_anti": 1}, {"n_anti": 1, "flat": True}, {"n_anti": 0, "shift": True}, {"n_anti": 0, "bad_bin": True}, {"n_anti": 1, "bad_bin": True, "tier": "thorough"}, {"n_anti": 1, "shift": True, "tier": "thorough"}, {"n_anti": 1, "flat": True, "shift": True, "tier": "thorough"}]
         + split_cases({"n_anti": 2, "tier": "thorough"}, ("sl0<=sl1", "sl0>sl1"), ("sl3<=sl4", "sl3>sl4"), ("rs0<=rs1", "rs0>rs1"), ("rs3<=rs4", "rs3>rs4")),
         covers=["reached", "rescaled"],
         wall_s=400,
